@@ -454,13 +454,22 @@ def run_same_file(sh, ctx, gm):
 					return l, l
 				m = np.array([rng.random() < 0.4 for _ in range(n)]); m[rng.randrange(n)] = True
 				return m, [i for i in range(n) if m[i]]
-			for rep in range(4):
+			for rep in range(5):
 				(qi, qpos), (ri, rpos) = part(), part()
 				whole = rep % 2 == 0
 				qsub = cont[qi]
 				rsub = cont if whole else cont[ri]
 				if whole:
 					rpos = list(range(n))
+				if rep == 4:
+					# the very same object as both operands (all-against-all through the matrix entry point)
+					(ri, sub_pos) = part()
+					if rng.random() < 0.5:
+						qsub = rsub = cont; qpos = rpos = list(range(n))
+					else:
+						qsub = rsub = cont[ri]; qpos = rpos = list(sub_pos)
+					qi = ri = 'the same object as the references'
+					ctx.count('same_object_as_both_operands')
 				extra = cont[part()[0]]       # another part taken after the operands (and not used): must not disturb them
 				chunk = rng.choice([None, 1, 5, 16, 1000])
 				w = dict(container=kind, n=n, dtype=dt, queries=repr(qi)[:80], refs='the whole container' if whole else repr(ri)[:80], chunksize=chunk)
